@@ -28,6 +28,19 @@ import (
 //   collide   (C03)  behaviour-changing edits, decided by NATIVE EXECUTION -> fingerprints differ
 //   diffsound (C04)  the same pairs through cli.ComputeDiff -> never "preserved"; copy -> preserved
 
+func scevOrderSource(depth int) string {
+	var b strings.Builder
+	b.WriteString("package genpkg\n\nfunc Mix(dst, src []int, p, q, n int) {\n\ty := p\n")
+	for k := 1; k <= depth; k++ {
+		b.WriteString("\ty = y + q\n")
+		if k == depth/2-10 {
+			b.WriteString("\ta := y\n")
+		}
+	}
+	b.WriteString("\tfor i, j := y, a; i < n; j, i = j+1, i+1 {\n\t\tdst[i] = src[j]\n\t}\n}\n")
+	return b.String()
+}
+
 func selfExe() string {
 	p, err := os.Executable()
 	if err != nil {
@@ -107,10 +120,16 @@ func suiteFpDet(c *Ctx) error {
 	}
 	r := NewRng(c.Seed)
 	var mu sync.Mutex
-	for i := 0; i < n; i++ {
+	for i := 0; i <= n; i++ {
 		p := GenProgramW(r.Fork(), "genpkg", 5, 6, true)
 		src := p.Render(nil, nil, 0)
 		other := GenProgramW(r.Fork(), "genpkg", 5, 6, true).Render(nil, nil, 0)
+		if i == n {
+			// one hand-shaped source whose result depends on the ORDER of SCEV queries if anything makes
+			// that order vary: two induction variables of one loop start at two links of a chain that is
+			// deeper than the SCEV depth limit (cut-off values are not memoised)
+			src = scevOrderSource(140 + r.Intn(30))
+		}
 		c.Res.Evaluations++
 		if strings.Contains(src, "for ") {
 			c.Res.Nontrivial++
